@@ -7,7 +7,7 @@
    ([valid_env]: exactly the generated base units, all positive). *)
 From Coq Require Import String List ZArith QArith Reals Qreals Lra.
 Import ListNotations.
-From PP Require Import Model.C43 Gen.C43_tables Proofs.C43.
+From PP Require Import Model.C43 Gen.C43_tables Proofs.C43 Proofs.C43_transfer.
 Open Scope string_scope.
 Open Scope R_scope.
 
@@ -131,6 +131,22 @@ Theorem C43_material_roundtrip_any_table :
                      to_units (ROps pi_) derived other env'' si c).
 Proof. exact material_lemma. Qed.
 Print Assumptions C43_material_roundtrip_any_table.
+
+(* TRANSFER.  What the execution correspondence runs (the rational instance [QOps] of the
+   model, integer powers) is the real instance of the theorems above on the embedded data:
+   whenever the rational run returns values / raises, the real model returns their images
+   under Q2R / raises the same exception.  (Unmodelled in Q = a non-integer power.) *)
+Theorem C43_transfer :
+  forall (pif : Q) (env : list (string * Q)) (v : list Q) (units : string) (ts : bool),
+    (0 < pif)%Q -> env_posQ env ->
+    (forall w, convert (QOps pif) derived_table other_attrs env v units ts = Ok w ->
+       convert (ROps (Q2R pif)) derived_table other_attrs (envR env) (map Q2R v) units ts
+       = Ok (map Q2R w)) /\
+    (forall er, convert (QOps pif) derived_table other_attrs env v units ts = Err er ->
+       convert (ROps (Q2R pif)) derived_table other_attrs (envR env) (map Q2R v) units ts
+       = Err er).
+Proof. exact transfer_gen. Qed.
+Print Assumptions C43_transfer.
 
 (* Non-vacuity.  A valid Units object; a unit string with a normal form (so the
    hypotheses of C43_dimension_sound / the Ok-branch of C43_roundtrip are inhabited);
